@@ -3082,6 +3082,14 @@ impl<'a, R: FileManager> FrontendCtx<'a, R> {
         }
     }
 
+    // the text a template element stands for (escape sequences resolved), not its spelling in the source
+    fn tpl_element_text(it: &swc_ecma_ast::TplElement) -> String {
+        match &it.cooked {
+            Some(cooked) => cooked.to_string_lossy().to_string(),
+            None => it.raw.to_string(),
+        }
+    }
+
     fn convert_ts_tpl_lit_type_non_trivial(
         &mut self,
         it: &TsTplLitType,
@@ -3097,7 +3105,7 @@ impl<'a, R: FileManager> FrontendCtx<'a, R> {
             if selecting_quasis {
                 let quasis = &it.quasis[quasis_idx];
                 quasis_idx += 1;
-                acc.push(TplLitTypeItem::StringConst(quasis.raw.to_string()));
+                acc.push(TplLitTypeItem::StringConst(Self::tpl_element_text(quasis)));
                 selecting_quasis = false;
             } else {
                 let type_ = &it.types[types_idx];
@@ -3124,7 +3132,7 @@ impl<'a, R: FileManager> FrontendCtx<'a, R> {
             Ok(Runtype::single_string_const(
                 &it.quasis
                     .iter()
-                    .map(|it| it.raw.to_string())
+                    .map(Self::tpl_element_text)
                     .collect::<String>(),
             ))
         }
